@@ -84,11 +84,25 @@ def run(ctx, chk):
         chk.floor('C15.N1', 'paths of Drop for Context', n, 2)
 
     # ------------------------------------------------------------ N2/N3 manager
+    web_field_types = []
+    for c_ in fb.crates:
+        a_ = c_.adts.get(ctx_ty)
+        if a_ and a_.get('variants'):
+            for f_ in a_['variants'][0]['fields']:
+                ts_ = c_.types[f_['ty']]['s'] if 'ty' in f_ else ''
+                if ts_.startswith(common.DAEMON + '::') and 'ChannelId' not in ts_.split('<')[0]:
+                    web_field_types.append(ts_.split('<')[0])      # (the dispatch box; the mailbox side is the map it came with)
+
     def keep_opaque(x):
         by_value_ctx = any(x.crate.tystr(x.locals[i]['ty']) == ctx_ty for i in range(1, x.argc + 1))
         # helpers with their own loops (the web constructor) and the broadcast are analysed on their own
         own_loop = bool(x.back_edges()) and not common.reaches_call(fb, x, lambda nm: nm.split('::')[-1] in ('recv', 'recv_timeout', 'try_recv'))
-        return by_value_ctx or (bcb is not None and x.path == bcb.path) or own_loop or x.crate.name != common.DAEMON
+        # the constructor of the channel web (it returns the mailboxes *and* the dispatch box, i.e. both field types of a
+        # Context) is one provenance step, however it builds its maps (a loop, `for_each`, `fold`)
+        rt = x.tystr(x.locals[0]['ty'])
+        web_ctor = bool(web_field_types) and all(ft in rt for ft in web_field_types) and x.defkind != 'Closure' and not x.impl_trait \
+            and ctx_ty.split('<')[0] not in rt
+        return by_value_ctx or (bcb is not None and x.path == bcb.path) or own_loop or web_ctor or x.crate.name != common.DAEMON
     eng = common.mk_engine(fb, no_inline=keep_opaque)
     paths = [p for p in eng.run(tmb) if p.kind != 'unreachable']
     chk.analysed['paths'] += len(paths)
@@ -242,8 +256,8 @@ def run(ctx, chk):
         chk.ob('C15.N3', 'manager:%s' % cls, got is not None and all(r[0] == 'broadcast' and r[1] == 'leave' for r in got), tmb.where(0),
                'on %s the manager does %s (must broadcast ThreadAbort and leave the loop)' % (cls, sorted(got) if got else 'nothing: no such row'))
     n_joined, n_handles = joined_handles(fb, tmb)
-    chk.ob('C15.N3', 'manager:joins-all-handles', n_joined == n_handles and n_handles >= 2 and join_loop_over_handles(tmb), tmb.where(0),
-           '%d thread handle(s) obtained, %d flow into a join; joined in a loop after the manager loop: %s' % (n_handles, n_joined, join_loop_over_handles(tmb)))
+    chk.ob('C15.N3', 'manager:joins-all-handles', n_joined == n_handles and n_handles >= 2 and joins_in_a_loop(fb, tmb), tmb.where(0),
+           '%d thread handle(s) obtained, %d flow into a join; joined in a loop after the manager loop: %s' % (n_handles, n_joined, joins_in_a_loop(fb, tmb)))
     chk.tables['manager'] = {str(k): sorted(v) for k, v in rows.items()}
     # N9: every thread the manager waits for is a worker -- it owns a Context, so it is told to stop (N4), leaves its loop
     # when told (N5) and blocks only on bounded calls (N6). A joined thread of any other kind (a signal waiter, a timer)
@@ -576,7 +590,15 @@ def context_dropped_on_all_exits(b, ctx_local=None, depth=0):
                     if o.get('k') == 'move' and o['p']['l'] in holders and not o['p']['proj']:
                         holders.add(st_['p']['l'])
                         grew = True
-    drops = {i for i, blk in enumerate(b.blocks) if blk['term']['k'] == 'drop' and blk['term']['p']['l'] in holders and not blk['term']['p']['proj']}
+                # ... or into a per-thread struct built around it (`PollerThread { ctx, poller, .. }`): whoever owns that
+                # struct owns the Context, and dropping the struct drops it
+                if st_['k'] == 'assign' and st_['r'].get('k') == 'agg' and not st_['p']['proj'] and st_['p']['l'] not in holders:
+                    for o in st_['r'].get('ops') or []:
+                        if o.get('k') == 'move' and o['p']['l'] in holders and not o['p']['proj']:
+                            holders.add(st_['p']['l'])
+                            grew = True
+    drops = {i for i, blk in enumerate(b.blocks) if blk['term']['k'] == 'drop' and blk['term']['p']['l'] in holders and
+             (not blk['term']['p']['proj'] or b.tystr(blk['term']['p']['ty']) == _CTX[0])}     # (a partially moved struct: field by field)
     handed = []
     if depth < 4 and _FB[0] is not None:
         for i, blk in enumerate(b.blocks):
@@ -611,30 +633,57 @@ def context_dropped_on_all_exits(b, ctx_local=None, depth=0):
 def joined_handles(fb, b):
     """(number of thread handles obtained by the manager that flow into a JoinHandle::join, number obtained): a handle is the
     result of thread::spawn or of a workspace helper that returns a JoinHandle"""
+    borrows = {}
+    for blk in b.blocks:
+        for st_ in blk['stmts']:
+            if st_['k'] == 'assign' and st_['r'].get('k') in ('ref', 'rawptr') and not st_['p']['proj']:
+                borrows[st_['p']['l']] = st_['r']['p']['l']
     srcs = []
     for bb, t, fn in b.calls():
         if not fn:
             continue
         nm = mir.callee_name(fn)
         dty = b.tystr(b.locals[t['dest']['l']]['ty'])
-        if common.is_thread_spawn(nm) or ('JoinHandle' in dty and fb.body(nm) is not None and
-                                          common.reaches_call(fb, fb.body(nm), common.is_thread_spawn)):
+        nb = fb.body(nm)
+        if common.is_thread_spawn(nm) or ('JoinHandle' in dty and nb is not None and common.reaches_call(fb, nb, common.is_thread_spawn)):
             srcs.append(t['dest']['l'])
+        elif nb is not None and 'JoinHandle' not in dty and common.reaches_call(fb, nb, common.is_thread_spawn):
+            # a helper that spawns and keeps the handle in something it was lent (`supervisor.start(..)` pushing onto
+            # `self.handles`): the lent value now holds a handle
+            for a in t['args']:
+                for l in common._op_locals(a):
+                    if l in borrows:
+                        srcs.append(('lent', bb, borrows[l]))
     joined = 0
     for s_ in srcs:
-        reach = common.local_flow(b, {s_})
+        reach = common.local_flow(b, {s_[2] if isinstance(s_, tuple) else s_})
         ok = False
         for bb, t, fn in b.calls():
             if not fn:
                 continue
             nm = mir.callee_name(fn)
             ls = [l for a in t['args'] for l in common._op_locals(a)]
-            if nm.endswith('JoinHandle::<T>::join') and any(l in reach for l in ls):
+            hit = any(l in reach or borrows.get(l) in reach for l in ls)
+            if nm.endswith('JoinHandle::<T>::join') and hit:
                 ok = True
-            if nm.split('::')[-1] in ('for_each', 'map', 'try_for_each') and any(l in reach for l in ls):
+            if nm.split('::')[-1] in ('for_each', 'map', 'try_for_each') and hit:
                 ok = True       # (that the closure joins is checked by join_loop_over_handles)
+            nb = fb.body(nm)
+            if nb is not None and hit and nb.defkind != 'Closure' and join_loop_over_handles(nb):
+                ok = True       # a helper that joins, in a loop, what it is handed
         joined += ok
     return joined, len(srcs)
+
+
+def joins_in_a_loop(fb, b):
+    """the manager, or a helper it calls, joins handles in a loop"""
+    if join_loop_over_handles(b):
+        return True
+    for bb, t, fn in b.calls():
+        nb = fb.body(mir.callee_name(fn)) if fn else None
+        if nb is not None and nb.defkind != 'Closure' and nb.crate.name == common.DAEMON and join_loop_over_handles(nb):
+            return True
+    return False
 
 
 SPAWNS = common.THREAD_SPAWNS
